@@ -101,3 +101,23 @@ def inputs_only(beh):
         else:
             out.append({"ev": "Step", "present": ev["present"], "outc": ev["outc"], "obs": [{"has": False} for _ in ev["present"]]})
     return out
+
+
+def enumerate_all(cfg_groups, depth, faults=(), moves=(), dev=(), timeout=900, tag="opt-enum"):
+    """EVERY behaviour of exactly `depth` actions (bounded-exhaustive conformance): model checking with the history
+    variable in the fingerprint makes the state graph the tree of behaviours; each leaf prints its history."""
+    res = tlc.run("MC_Opt", mc_module(cfg_groups, faults, moves, dev),
+                  mc_cfg(depth, True, ("EmitInv", "NoViolation"), view=None), tag=tag, timeout=timeout, workers=16, memqueue=True)
+    behs, seen = [], set()
+    for p in res.printed:
+        if not p.startswith('<<"BEH"'):
+            continue
+        body = p[len('<<"BEH", '):-2].strip()
+        if body in seen:
+            continue
+        seen.add(body)
+        try:
+            behs.append(normalise(json.loads(json.loads(body))))
+        except Exception:
+            continue
+    return behs, res
